@@ -1033,7 +1033,7 @@ class Engine:
             raise Unsupported("class attribute " + ast.unparse(n))
         if isinstance(base, VDict) and n.attr in ("get", "pop", "setdefault", "keys", "values", "items", "copy", "update"):
             return VBound(base, n.attr)
-        if isinstance(base, VStr) and n.attr in ("format", "join", "lower", "upper", "strip"):
+        if isinstance(base, VStr) and n.attr in ("format", "join", "lower", "upper", "strip", "startswith", "endswith"):
             return VBound(base, n.attr)
         if isinstance(base, VNum) and n.attr in ("lower", "upper", "strip"):
             raise PyRaise("AttributeError")
@@ -1082,7 +1082,7 @@ class Engine:
             return VBound(base, n.attr)
         if isinstance(base, VPySet) and n.attr in ("issubset", "issuperset", "union", "intersection", "difference"):
             return VBound(base, n.attr)
-        if isinstance(base, VTuple) and n.attr in ("index", "append", "copy", "count"):
+        if isinstance(base, VTuple) and n.attr in ("index", "append", "copy", "count", "insert"):
             return VBound(base, n.attr)
         if isinstance(base, VSeqOf) and n.attr in ("values", "index"):
             return VBound(base, n.attr)
@@ -1092,11 +1092,13 @@ class Engine:
             return VBound(base, "append")
         if isinstance(base, VBoolMat) and n.attr in ("all", "any"):
             return VBound(base, n.attr)
-        if isinstance(base, (VSeq, VMat)) and n.attr == "copy":
-            return VBound(base, "copy")
+        if isinstance(base, (VSeq, VMat)) and n.attr in ("copy", "astype"):
+            return VBound(base, n.attr)
         if isinstance(base, VOptSeq) and n.attr == "copy":
             self.oblige("pre@not-None:" + ast.unparse(n)[:50], st, z3.Not(base.none))
             return VBound(VSeq(base.arr, base.len), "copy")
+        if isinstance(base, VNum) and n.attr in ("ndim", "shape") and getattr(base, "python_number", False):
+            raise PyRaise("AttributeError")          # a plain python number (not a numpy scalar)
         if isinstance(base, (VSeq, VNum, VMat)) and n.attr == "ndim":
             return VNum(getattr(base, "ndim", z3.IntVal(1 if isinstance(base, VSeq) else 0 if isinstance(base, VNum) else 2)))
         if isinstance(base, VBoolSeq) and n.attr in ("all", "any"):
@@ -1122,6 +1124,8 @@ class Engine:
         if isinstance(n.op, ast.USub):
             if isinstance(v, VOpaque):
                 return VOpaque("-" + str(v.tag))
+            if isinstance(v, VSeq):
+                return VSeq(FnArr(lambda k_: -v.arr[k_]), v.len)
             return VNum(-v.e)
         raise Unsupported("unary")
 
@@ -1148,6 +1152,8 @@ class Engine:
             return z3.BoolVal(False)
         if isinstance(v, VRef):
             return v.e != NULL
+        if isinstance(v, VRange):
+            return (v.hi.e if isinstance(v.hi, V) else v.hi) > (v.lo.e if isinstance(v.lo, V) else v.lo)
         raise Unsupported("truth of " + type(v).__name__)
 
     def ev_BoolOp(self, n, st):
@@ -1202,6 +1208,8 @@ class Engine:
     def binop(self, op, a, b, n=None):
         if isinstance(op, ast.Mod) and getattr(self, "mod_model", None) is not None:
             return self.mod_model(self, a, b)
+        if (isinstance(a, VNone) and isinstance(b, (VNum, VSeq, VMat))) or (isinstance(b, VNone) and isinstance(a, (VNum, VSeq, VMat))):
+            raise PyRaise("TypeError")           # arithmetic between a number / array and None
         if isinstance(a, VStr) and isinstance(b, VStr) and isinstance(op, ast.Add) and not (a.s.startswith("<") or b.s.startswith("<")):
             return VStr(a.s + b.s)               # concatenation of two concrete strings
         if isinstance(a, VStr) and isinstance(op, (ast.Mod, ast.Add)):
@@ -1560,6 +1568,10 @@ class Engine:
             return VStr(f.recv.s.join(q_.s for q_ in args[0].items))
         if isinstance(f, VBound) and isinstance(f.recv, VStr) and f.name in ("lower", "upper", "strip"):
             return VStr(getattr(f.recv.s, f.name)())
+        if isinstance(f, VBound) and isinstance(f.recv, VStr) and f.name in ("startswith", "endswith") and len(args) == 1 and isinstance(args[0], VStr) and not f.recv.s.startswith("<"):
+            return VBool(z3.BoolVal(getattr(f.recv.s, f.name)(args[0].s)))
+        if isinstance(f, VBound) and isinstance(f.recv, VStr) and f.name == "format" and getattr(self, "concrete_format", False) and not args and all(isinstance(v_, VStr) for v_ in kw.values()):
+            return VStr(f.recv.s.format(**{k_: v_.s for k_, v_ in kw.items()}))       # real str.format on concrete pieces (KeyError for a missing field is python's)
         if isinstance(f, VBound) and isinstance(f.recv, VStr):
             return VStr("<formatted>")
         if isinstance(f, VBound) and isinstance(f.recv, VOpaque):
@@ -1585,7 +1597,12 @@ class Engine:
                         return VNum(z3.IntVal(q_))
                 if all(isinstance(it_, VStr) for it_ in f.recv.items) and isinstance(args[0], VStr):
                     raise PyRaise("ValueError")
+                if all(isinstance(it_, (VStr, VOpaque)) for it_ in f.recv.items) and isinstance(args[0], (VStr, VOpaque, VNone, VTuple)):
+                    raise PyRaise("ValueError")        # opaque handles are compared by identity: not in the list
                 raise Unsupported("list.index on non-concrete list")
+            if f.name == "insert" and isinstance(args[0], VNum) and z3.is_int_value(z3.simplify(args[0].e)):
+                f.recv.items.insert(z3.simplify(args[0].e).as_long(), args[1])
+                return VNone()
         if isinstance(f, VBound) and isinstance(f.recv, VNode):
             st.ghost = dict(st.ghost)
             st.ghost["node_calls"] = st.ghost.get("node_calls", ()) + ((f.recv.name, f.name),)
@@ -1598,7 +1615,8 @@ class Engine:
                 return self.ext_results[f.name](self, st, args, kw)
             return VOpaque(("ext", f.recv.name, f.name, len(f.recv.rec["calls"])))
         if isinstance(f, VBound) and isinstance(f.recv, VDict) and f.name in ("keys", "values", "items"):
-            return VTuple([VStr(k_) if isinstance(k_, str) else VOpaque(k_) for k_ in f.recv.d] if f.name == "keys" else list(f.recv.d.values()) if f.name == "values" else [VTuple([VStr(k_), v_]) for k_, v_ in f.recv.d.items()])
+            kv_ = lambda k_: VStr(k_) if isinstance(k_, str) else VNum(z3.IntVal(k_)) if isinstance(k_, int) and not isinstance(k_, bool) else VOpaque(k_)
+            return VTuple([kv_(k_) for k_ in f.recv.d] if f.name == "keys" else list(f.recv.d.values()) if f.name == "values" else [VTuple([kv_(k_), v_]) for k_, v_ in f.recv.d.items()])
         if isinstance(f, VBound) and isinstance(f.recv, VDict) and f.name == "copy":
             return VDict(dict(f.recv.d))         # shallow copy
         if isinstance(f, VBound) and isinstance(f.recv, VDict) and f.name == "update":
@@ -1630,6 +1648,8 @@ class Engine:
         if isinstance(f, VBound) and isinstance(f.recv, (VBoolSeq, VBoolMat)):
             return self.bool_reduce(f.recv, f.name)
         if isinstance(f, VBound):
+            if f.name == "astype" and isinstance(f.recv, (VSeq, VMat)) and len(args) == 1 and isinstance(n.args[0], ast.Name) and n.args[0].id == "float":
+                return f.recv  # ndarray.astype(float) of a numeric array: same values (reals here)
             if f.name in ("copy", "values") and not isinstance(f.recv, VRef):
                 return f.recv  # ndarray.copy(): same value, fresh identity (values are immutable terms here); dict.values(): the entry sequence
             if isinstance(f.recv, VSeq) and f.name == "append":
@@ -2272,6 +2292,12 @@ class Engine:
         """for x in <iterable>: body   ==   i=0; while i < len: x = item(i); body; i+=1   (ghost index '#i<k>').
         Concrete python lists/tuples (VTuple) are unrolled."""
         it = self.ev(n.iter, st)
+
+        def concrete_range(r_):
+            lo_, hi_ = [z3.simplify(b_.e if isinstance(b_, V) else z3.IntVal(b_) if isinstance(b_, int) else b_) for b_ in (r_.lo, r_.hi)]
+            return VTuple([VNum(z3.IntVal(q_)) for q_ in range(lo_.as_long(), hi_.as_long())]) if z3.is_int_value(lo_) and z3.is_int_value(hi_) else r_
+        if isinstance(it, VZip) and any(isinstance(p_, VTuple) for p_ in it.parts):
+            it = VZip([concrete_range(p_) if isinstance(p_, VRange) else p_ for p_ in it.parts]) if hasattr(it, "parts") else it
         if isinstance(it, VZip) and all(isinstance(p_, VTuple) for p_ in it.parts):       # zip of concrete python lists: unrolled
             it = VTuple([VTuple(list(row)) for row in zip(*[p_.items for p_ in it.parts])])
         if isinstance(it, VEnum) and isinstance(it.inner, VTuple):
